@@ -1,1 +1,87 @@
-(* C03 *)
+(* C03 - conditionals, loops and matches render what the Rust construct would.  Theorems only. *)
+From Coq Require Import Lia.
+From Ructe Require Import Nom NomFacts Utf8 Spacelike Expression TemplateExpr Template Emit Tables Io IoProofs Exec
+                          ParserProofs SpaceProofs TextProofs EmitProofs ExecProofs.
+Local Open Scope list_scope.
+
+Section Parse.
+  Variable E : nt -> parser bytes.
+  Hypothesis HE : forall x, good (E x).
+  Variable ln : nat.
+
+  (* on EVERY input: a block is `{` items `}` and leaves untouched whatever follows its `}` *)
+  Theorem block_ends_at_its_brace : forall te i items r, good te -> template_block te i = Ok items r ->
+    exists body, i = 123%N :: body ++ 125%N :: r.
+  Proof. intros te i items r G H. exact (template_block_ends te i items r G H). Qed.
+
+  (* on EVERY input: an @if -- with or without else, with any else-if chain -- consumes text that
+     ends with the `}` of its last block; in particular without an else nothing after the block's
+     closing brace is swallowed.  The same for @for. *)
+  Theorem nothing_swallowed_after_if : forall m i a r, texpr_gram E ln m IF2 i = Ok a r -> ends_with_brace i r.
+  Proof. exact (if2_ends E HE ln). Qed.
+  Theorem nothing_swallowed_after_for : forall te i a r, good te -> for_branch E te i = Ok a r -> ends_with_brace i r.
+  Proof. intros te i a r G H. exact (for_branch_ends E HE te i a r G H). Qed.
+End Parse.
+
+(* the emitted code has the structure of the construct, with the fragments verbatim and the
+   bodies emitted recursively; an else holding exactly one @if is flattened to `else if` *)
+Theorem emit_structure : forall (ue : N -> bool),
+  (forall name expr body, write_code ue (TFor name expr body) =
+     b "for " ++ name ++ b " in " ++ expr ++ b " {" ++ nl ++ codes ue body ++ b "}" ++ nl) /\
+  (forall expr body els, write_code ue (TIf expr body els) =
+     b "if " ++ expr ++ b " {" ++ nl ++ codes ue body ++ b "}" ++
+     match els with
+     | Some [TIf e2 b2 els2 as e] => b " else " ++ write_code ue e
+     | Some body2 => b " else {" ++ nl ++ codes ue body2 ++ b "}" ++ nl
+     | None => nl
+     end) /\
+  (forall expr arms, write_code ue (TMatch expr arms) = b "match " ++ expr ++ b " {" ++ arms_text ue arms ++ nl ++ b "}" ++ nl).
+Proof. intros ue. split; [apply write_code_for|]. split; [apply write_code_if|apply write_code_match]. Qed.
+
+Section Run.
+  Variable env : Type.
+  Variable o : oracle env.
+
+  (* what runs: exactly the bodies the Rust construct would execute, in execution order *)
+  Theorem render_control_flow : forall fuel e cs rest,
+    (forall c body els, render env o (S fuel) e cs (TIf c body els :: rest) =
+       oseq (match o_if env o e c with
+             | Some e' => render env o fuel e' cs body
+             | None => match els with Some b2 => render env o fuel e cs b2 | None => Some [] end end)
+            (render env o fuel e cs rest)) /\
+    (forall name x body, render env o (S fuel) e cs (TFor name x body :: rest) =
+       oseq (fold_right (fun e1 acc => oseq (render env o fuel e1 cs body) acc) (Some []) (o_for env o e name x))
+            (render env o fuel e cs rest)) /\
+    (forall x arms, render env o (S fuel) e cs (TMatch x arms :: rest) =
+       oseq (match o_match env o e x (map fst arms) with
+             | Some (k, e') => render env o fuel e' cs (snd (nth k arms ([], [])))
+             | None => Some [] end)
+            (render env o fuel e cs rest)).
+  Proof.
+    intros fuel e cs rest. split; [reflexivity|]. split; [|reflexivity].
+    intros name x body. cbn [render]. f_equal; try reflexivity.
+    all: induction (o_for env o e name x) as [|e1 es IH]; [reflexivity|]; cbn [fold_right]; now rewrite <- IH.
+  Qed.
+
+  (* and the sink receives a prefix of that rendering, all of it on success (C14's theorem) *)
+  Theorem exec_renders : forall fuel e cs items s s' r full,
+    exec env o fuel e cs items s = (s', r) -> render env o fuel e cs items = Some full ->
+    exists p, log s' = log s ++ p /\ prefix p full /\ (r = Done -> p = full).
+  Proof.
+    intros fuel e cs items s s' r full H R. destruct (exec_Pre env o fuel e cs items s s' r H) as [p [L C]].
+    rewrite R in C. exists p. tauto.
+  Qed.
+End Run.
+
+Example if_else_chain_runs_one_body :
+  let o := {| o_val := fun (_ : nat) _ => VDisplay []; o_if := fun e c => if beq c (b "c2") then Some e else None;
+              o_for := fun _ _ _ => []; o_match := fun _ _ _ => None; o_call := fun _ _ _ => None |} in
+  render nat o 5 0 [] [TIf (b "c1") [TText (b "A")] (Some [TIf (b "c2") [TText (b "B")] (Some [TText (b "C")])]); TText (b "!")] = Some (b "B!").
+Proof. vm_compute. reflexivity. Qed.
+
+Redirect "assumptions/C03.block_ends_at_its_brace" Print Assumptions block_ends_at_its_brace.
+Redirect "assumptions/C03.nothing_swallowed_after_if" Print Assumptions nothing_swallowed_after_if.
+Redirect "assumptions/C03.nothing_swallowed_after_for" Print Assumptions nothing_swallowed_after_for.
+Redirect "assumptions/C03.emit_structure" Print Assumptions emit_structure.
+Redirect "assumptions/C03.render_control_flow" Print Assumptions render_control_flow.
+Redirect "assumptions/C03.exec_renders" Print Assumptions exec_renders.
